@@ -462,17 +462,41 @@ func (r *Reconciler) selectNodes(logger logr.Logger, daemonset *datadoghqv1alpha
 				if nb := antiAffinityKeysValues[antiAffinityKeysValue]; nb >= (nbCanaryPod+len(antiAffinityKeysValues)-1)/len(antiAffinityKeysValues) {
 					continue
 				}
-				antiAffinityKeysValues[antiAffinityKeysValue]++
 			}
 
 			if scheduler.CheckNodeFitness(logger, newPod, &node) {
 				currentNodes = append(currentNodes, node.Name)
+				// only a node that is selected takes a slot of its label value
+				if len(daemonsetSpec.Strategy.Canary.NodeAntiAffinityKeys) != 0 {
+					antiAffinityKeysValues[getAntiAffinityKeysValue(&node, daemonsetSpec)]++
+				}
 			}
 			// All nodes are found. We can exit now!
 			if len(currentNodes) == nbCanaryPod {
 				logger.V(1).Info("All nodes were found")
 
 				break
+			}
+		}
+
+		// Spreading over the `NodeAntiAffinityKeys` values is a preference: when the balanced pass did not find
+		// enough nodes, fill up with the remaining fit nodes instead of reporting a shortage
+		if len(currentNodes) < nbCanaryPod && len(daemonsetSpec.Strategy.Canary.NodeAntiAffinityKeys) != 0 {
+			for _, node := range nodeList.Items {
+				alreadySelected := false
+				for _, currentNode := range currentNodes {
+					if node.Name == currentNode {
+						alreadySelected = true
+
+						break
+					}
+				}
+				if !alreadySelected && scheduler.CheckNodeFitness(logger, newPod, &node) {
+					currentNodes = append(currentNodes, node.Name)
+				}
+				if len(currentNodes) == nbCanaryPod {
+					break
+				}
 			}
 		}
 	}
